@@ -77,6 +77,7 @@ func (c *FnCtx) callSiteAsserts(st *State, key string, sig *types.Signature, rec
 				goal = sImp(guard, goal)
 			}
 			c.oblige(st, "callsite", fmt.Sprintf("%s/assert%d%s", lastSeg(cs.Callee), i+1, cj.Path), pos, goal, "at every call of "+cs.Callee+": "+cj.Src)
+			st.assume(goal) // assert-then-assume
 		}
 		if c.matchedCallSites == nil {
 			c.matchedCallSites = map[int]bool{}
